@@ -140,6 +140,10 @@ def valid_params(rng, name, shipped_bias=0.3):
         if rng.random() < shipped_bias:
             h, l = rng.choice([(7, 2), (9, 2), (10, 3), (13, 3)])
             return dict(h=h, w=h, lh=l, lw=l)
+        if rng.random() < 0.4:
+            # rooms of unequal size (the side does not divide evenly): the narrowest rooms are one cell wide
+            (h, lh), (w, lw) = rng.choice([(8, 2), (9, 3), (10, 2), (11, 3), (12, 2), (15, 3), (8, 3), (14, 4)]), rng.choice([(8, 2), (9, 3), (10, 2), (11, 3), (12, 2), (15, 3), (7, 2), (13, 3)])
+            return dict(h=h, w=w, lh=lh, lw=lw)
         return dict(h=rng.choice([7, 9, 10, 11, 13]), w=rng.choice([7, 9, 10, 11, 13]), lh=rng.randint(1, 3), lw=rng.randint(1, 3))
     if name == 'memory_rooms':
         if rng.random() < shipped_bias:
